@@ -711,7 +711,11 @@ pub fn par_for_threads(nthreads: usize, n: usize, f: impl Fn(usize) + Sync) {
     });
 }
 
-/// Run a library call under catch_unwind; returns Err(panic message) if it panicked.
+thread_local! {
+    static LAST_PANIC_LOC: std::cell::RefCell<String> = const { std::cell::RefCell::new(String::new()) };
+}
+
+/// Run a library call under catch_unwind; returns Err(panic message + source location) if it panicked.
 pub fn guarded<T>(f: impl FnOnce() -> T) -> Result<T, String> {
     match std::panic::catch_unwind(std::panic::AssertUnwindSafe(f)) {
         Ok(v) => Ok(v),
@@ -723,16 +727,21 @@ pub fn guarded<T>(f: impl FnOnce() -> T) -> Result<T, String> {
             } else {
                 "non-string panic payload".to_string()
             };
-            Err(msg)
+            let loc = LAST_PANIC_LOC.with(|l| l.borrow().clone());
+            Err(if loc.is_empty() { msg } else { format!("{} [at {}]", msg.replace('\n', " "), loc) })
         }
     }
 }
 
 /// Silence the default panic printer for panics we deliberately catch around library calls
-/// (the message is kept in the violation record). Harness panics still abort the run visibly
-/// because the top level maps them to exit code 2.
+/// (message and location are kept in the violation record). Harness panics outside `guarded`
+/// are mapped to exit code 2 by the top level.
 pub fn quiet_panics() {
     std::panic::set_hook(Box::new(|info| {
+        if let Some(l) = info.location() {
+            let s = format!("{}:{}", l.file(), l.line());
+            LAST_PANIC_LOC.with(|c| *c.borrow_mut() = s);
+        }
         if std::env::var("RQV_SHOW_PANICS").is_ok() {
             eprintln!("{info}");
         }
